@@ -1,5 +1,10 @@
 package mc
 
+import (
+	"encoding/json"
+	"strconv"
+)
+
 // AllSeqs returns every sequence over 0..vals-1 of length 0..maxLen, shortest
 // first (bounded-exhaustive input enumeration, E4).
 func AllSeqs(vals, maxLen int) [][]int {
@@ -39,4 +44,27 @@ func Guard(f func() *Failure) (out *Failure) {
 		}
 	}()
 	return f()
+}
+
+// BStr is a byte string that survives JSON: it is written as its Go-quoted
+// form (strconv.Quote), so bytes that are not valid UTF-8 are preserved.
+type BStr string
+
+// MarshalJSON implements json.Marshaler.
+func (b BStr) MarshalJSON() ([]byte, error) {
+	return json.Marshal(strconv.Quote(string(b)))
+}
+
+// UnmarshalJSON implements json.Unmarshaler.
+func (b *BStr) UnmarshalJSON(data []byte) error {
+	var q string
+	if err := json.Unmarshal(data, &q); err != nil {
+		return err
+	}
+	s, err := strconv.Unquote(q)
+	if err != nil {
+		return err
+	}
+	*b = BStr(s)
+	return nil
 }
